@@ -75,7 +75,15 @@ def wellformed_problem(s):
         if ty is G.Operated:
             return any(occurs(v, o) for o in t.operands)
         return False
-    return walk(s, frozenset())
+    r = walk(s, frozenset())
+    if r:
+        return r
+    arities = {}
+    for p in s.predicates:
+        key = (p.index, p.subscript)
+        if arities.setdefault(key, p.arity) != p.arity:
+            return f'predicate symbol {key} is used with arities {arities[key]} and {p.arity}'
+    return None
 
 def outcome(parser, text):
     from pytableaux.errors import ParseError
@@ -157,9 +165,74 @@ def _mutation_task(task):
         out['sample'] = dict(notation=notation, mutated=texts[0])
     return out
 
+def binding_family(tier):
+    """every formula over {Fx, Fy, Gxy, A, F'xy (same symbol as F, arity 2)} with ~, &, and the quantifiers over x and y placed WITHOUT any
+    well-formedness restriction, up to a weight bound: each is either in the parsers' language or not (free / vacuous / re-bound variable,
+    symbol used with two arities); the parser must accept exactly the former and return the sentence that was written"""
+    import pytableaux.lang as G
+    x, y = G.Variable(0, 0), G.Variable(1, 0)
+    F1, F2, Gp = G.Predicate((0, 0, 1)), G.Predicate((0, 0, 2)), G.Predicate((1, 0, 2))
+    a = G.Constant(0, 0)
+    leaves = [G.Predicated(F1, (x,)), G.Predicated(F1, (y,)), G.Predicated(Gp, (x, y)), G.Atomic(0, 0), G.Predicated(F2, (a, x)), G.Predicated(F1, (a,))]
+    memo = {0: leaves}
+    def rec(k):
+        if k in memo:
+            return memo[k]
+        out = []
+        for s_ in rec(k - 1):
+            out.append(~s_)
+            for q in G.Quantifier:
+                for v in (x, y):
+                    out.append(G.Quantified(q, v, s_))
+        for i in range(k):
+            for l in rec(i):
+                for r in rec(k - 1 - i):
+                    out.append(l & r)
+        memo[k] = out
+        return out
+    out = []
+    for k in range(0, 4):
+        out += rec(k)
+    return out
+
+def _binding_task(task):
+    tier, notation, lo, hi = task
+    import pytableaux.lang as G
+    from .c12 import std_print, _rev_table
+    fam = binding_family(tier)[lo:hi]
+    out = dict(evals=0, viol=[], sentences=0, sample=None)
+    if notation == 'polish':
+        w = G.LexWriter('polish', 'text', 'ascii')
+        write = w
+    else:
+        rev = _rev_table(G.Parser('standard'))
+        # infix for the binary predicates' first use half of the time is produced by the library writer with max_infix=3
+        lw = G.LexWriter('standard', 'text', 'ascii', max_infix=3, drop_parens=False)
+        write = lambda s_, i=[0]: (lw(s_) if (i.__setitem__(0, i[0] + 1) or i[0]) % 2 else std_print(rev, s_, full=True))
+    for s_ in fam:
+        text = write(s_)
+        out['evals'] += 1
+        P = G.Parser(notation)
+        o, err = outcome(P, text)
+        legal = wellformed_problem(s_) is None
+        def viol(kind, what):
+            out['viol'].append(dict(sig=f'{notation}|binding|{kind}|{text!r}'.replace(' ', '_'), what=f'{notation} parser on {text!r}: {what}',
+                                    replay=dict(notation=notation, store='auto', text=text, label='binding')))
+        if err:
+            viol('exception', err)
+        elif legal:
+            out['sentences'] += 1
+            if o[0] != 'S':
+                viol('rejected', f'well-formed sentence {s_!r} is rejected')
+            elif o[1] != s_:
+                viol('different', f'parses to {o[1]!r}, written from {s_!r}')
+        elif o[0] == 'S':
+            viol('accepted-ill-formed', f'accepted although it is not in the language ({wellformed_problem(s_)}); returned {o[1]!r}')
+    return out
+
 HIST = {
     'polish': ['Fm', 'Fmn', 'VxFx', 'VxFy', 'VxVxFx', 'KFmFmn', 'Gx', 'SyKFyGy', 'Fx', 'NVxFxm', 'Imn', 'K'],
-    'standard': ['Fa', 'Fab', 'LxFx', 'LxFy', 'LxLxFx', 'Fa & Fab', 'Gx', 'Xy(Fy & Gy)', 'Fx', 'a=b', '(Fa & Gab) V Gab', 'x=a'],
+    'standard': ['Fa', 'Fab', 'LxFx', 'LxFy', 'LxLxFx', 'Fa & Fab', 'Gx', 'Xy(Fy & Gy)', 'Fx', 'a=b', 'aFb', 'aFb & Fc'],
 }
 
 class HistModel(seqx.Model):
@@ -215,6 +288,10 @@ def run(ctx):
         for lo in range(0, total, size * step):
             mtasks.append((notation, lo, min(total, lo + size), ctx.tier))
     mres = pmap(_mutation_task, mtasks)
+    nb = len(binding_family(ctx.tier))
+    bsize = max(1, nb // 16)
+    bres = pmap(_binding_task, [(ctx.tier, nt, lo, min(nb, lo + bsize)) for nt in ('polish', 'standard') for lo in range(0, nb, bsize)])
+    mres = mres + bres
     hres = pmap(_hist_task, [(nt, 3 if ctx.quick else 4) for nt in ('polish', 'standard')])
     viol = [v for r in res + mres for v in r['viol']]
     for r in hres:
@@ -228,7 +305,8 @@ def run(ctx):
         distinct_nontrivial=sum(r['sentences'] for r in res + mres),
         rule=(f'every string of length <= {n} over {len(ALPHA["polish"])} (polish) / {len(ALPHA["standard"])} (standard) class representatives '
               'x 4 predicate-store configurations, each parsed on a long-lived parser and on a fresh parser with the prior predicate store; '
-              f'every single-character deletion / duplication / swap of the renderings of every {step}th C12 sentence; BFS over parse histories of '
+              f'every single-character deletion / duplication / swap of the renderings of every {step}th C12 sentence; {nb} formulas with quantifiers placed without any '
+              f'well-formedness restriction (accepted iff in the language); BFS over parse histories of '
               '12 interacting strings; non-trivial = inputs that parsed to a sentence (each checked closed, non-vacuous, singly bound)'),
         exhaustive_strings=sum(r['evals'] for r in res), mutated_strings=sum(r['evals'] for r in mres),
         history_states=sum(r['states'] for r in hres), history_transitions=sum(r['transitions'] for r in hres),
